@@ -1,9 +1,466 @@
 import Driver.Proto
+import PolyVerif.Model.GltfSpec
+import PolyVerif.Model.GltfDedup
 
+/-
+  C06 driver: parses scene descriptions / parsed-document summaries from the harness, answers with the model's
+  summary (`c06.doc`, `c06.bin`, `c06.glb`) or evaluates the theorem predicates of Props/C06 on the implementation's
+  parsed output (`c06.holds.*`).
+-/
 namespace Driver.C06
+open PolyVerif PolyVerif.Gltf
 
-/-- one request -> one answer line; `none` = unknown op / malformed -/
-def handle (_op : String) (_args : List String) : Option String := none
+/-! ### token parser -/
+
+abbrev P := StateT (List String) Option
+
+def tok : P String := do
+  match (← get) with
+  | [] => failure
+  | t :: r => set r; pure t
+
+def kw (s : String) : P Unit := do
+  let t ← tok
+  if t == s then pure () else failure
+
+def pNat : P Nat := do
+  let t ← tok
+  match t.toNat? with
+  | some n => pure n
+  | none => failure
+
+/-- `-1` ↦ none -/
+def pOptNat : P (Option Nat) := do
+  let t ← tok
+  if t == "-1" then pure none else
+  match t.toNat? with
+  | some n => pure (some n)
+  | none => failure
+
+def pStr : P String := do
+  let t ← tok
+  if t.startsWith "q" then pure (t.drop 1).toString else failure
+
+def pHex64 : P Nat := do
+  let t ← tok
+  if t.length ≠ 16 then failure else
+  match parseHex t with
+  | some n => pure n
+  | none => failure
+
+def pOptHex : P (Option Nat) := do
+  match (← get) with
+  | "-" :: r => set r; pure none
+  | _ => some <$> pHex64
+
+def rep {α} (p : P α) : Nat → P (List α)
+  | 0 => pure []
+  | n+1 => do
+    let a ← p
+    let r ← rep p n
+    pure (a :: r)
+
+def pCounted {α} (p : P α) : P (List α) := do
+  let n ← pNat
+  rep p n
+
+/-- `0` ↦ none, `k v…` ↦ some -/
+def pOptList {α} (p : P α) : P (Option (List α)) := do
+  let n ← pNat
+  if n == 0 then pure none else some <$> rep p n
+
+/-- `-1` ↦ none, `k v…` ↦ some -/
+def pM1List {α} (p : P α) : P (Option (List α)) := do
+  match (← get) with
+  | "-1" :: r => set r; pure none
+  | _ => some <$> pCounted p
+
+def q32 (bits : Nat) : Nat := (Float.ofBits bits.toUInt64).toFloat32.toBits.toNat
+def toByte (bits : Nat) : Nat := (Float.ofBits bits.toUInt64).toUInt8.toNat
+
+/-! ### scene -/
+
+def chunk {α} (k : Nat) : Nat → List α → List (List α)
+  | 0, _ => []
+  | c+1, l => l.take k :: chunk k c (l.drop k)
+
+def pAttr : P Attr := do
+  let name ← pStr
+  let dim ← pNat
+  let count ← pNat
+  let raw ← rep pHex64 (dim * count)
+  let conv := if attrComp name = .u8 then toByte else q32
+  pure { name := name, dim := dim, vals := chunk dim count (raw.map conv) }
+
+def pMesh : P PMesh := do
+  let topo ← pNat
+  let idx ← pCounted pNat
+  let attrs ← pCounted pAttr
+  pure { topo := topo, indices := idx, attrs := attrs }
+
+def pSampler : P Sampler := do
+  let mag ← pNat; let min ← pNat; let ws ← pNat; let wt ← pNat; let name ← pStr
+  pure { mag := mag, min := min, wrapS := ws, wrapT := wt, name := name }
+
+def pTex : P PTexture := do
+  let uri ← pStr
+  let hs ← pNat
+  let smp ← if hs == 1 then some <$> pSampler else pure none
+  let xf ← pM1List pHex64
+  let req ← pNat
+  pure { uri := uri, sampler := smp, xform := xf, xformRequired := req == 1 }
+
+def pTexRefScaled : P (Option (Nat × Option Nat)) := do
+  match (← pOptNat) with
+  | none => pure none
+  | some id => do
+    let sc ← pOptHex
+    pure (some (id, sc))
+
+def pMatExt : P PMatExt := do
+  let id ← pStr
+  let key ← pNat
+  let payload ← pCounted pHex64
+  let texs ← pCounted (do let k ← pStr; let i ← pNat; pure (k, i))
+  pure { id := id, eqKey := key, payload := payload, texs := texs }
+
+def pOptStr : P (Option String) := do
+  match (← get) with
+  | "-" :: r => set r; pure none
+  | _ => some <$> pStr
+
+def pMat : P PMaterial := do
+  let name ← pStr
+  let am ← pOptStr
+  let cutoff ← pOptHex
+  let hasPbr ← pNat
+  let bc ← pOptList pNat
+  let metallic ← pOptHex
+  let rough ← pOptHex
+  let bct ← pOptNat
+  let mrt ← pOptNat
+  let em ← pOptList pNat
+  let normal ← pTexRefScaled
+  let occl ← pTexRefScaled
+  let exts ← pCounted pMatExt
+  pure { name := name, alphaMode := am, alphaCutoff := cutoff, hasPbr := hasPbr == 1, baseColor := bc,
+         metallic := metallic, roughness := rough, baseColorTex := bct, metalRoughTex := mrt, emissive := em,
+         normalTex := normal, occlusionTex := occl, exts := exts }
+
+def pModel : P Model := do
+  let name ← pStr
+  let mesh ← pOptNat
+  let mat ← pOptNat
+  let t ← pOptList pHex64
+  let r ← pOptList pHex64
+  let s ← pOptList pHex64
+  let ni ← pNat
+  let inst ← rep (rep (q32 <$> pHex64) 10) ni
+  pure { name := name, mesh := mesh, material := mat, translation := t, rotation := r, scale := s, instances := inst }
+
+def pScene : P Scene := do
+  kw "S"; kw "meshes"
+  let meshes ← pCounted pMesh
+  kw "texs"
+  let texs ← pCounted pTex
+  kw "mats"
+  let mats ← pCounted pMat
+  kw "models"
+  let models ← pCounted pModel
+  kw "lights"
+  let lights ← pCounted (rep pHex64 3)
+  pure { meshHeap := meshes, texHeap := texs, matHeap := mats, models := models, lights := lights }
+
+/-! ### document -/
+
+def pBound : P Bound := do
+  let t ← tok
+  if t == "s" then pure none else
+  match t.toNat? with
+  | some n => pure (some n)
+  | none => failure
+
+def pAcc : P Accessor := do
+  let view ← pNat
+  let code ← pNat
+  let comp ← match Comp.ofCode? code with
+    | some c => pure c
+    | none => failure
+  let dim ← pNat
+  let count ← pNat
+  let mn ← pCounted pBound
+  let mx ← pCounted pBound
+  pure { view := view, comp := comp, dim := dim, count := count, min := mn, max := mx }
+
+def pKV : P (String × Nat) := do
+  let k ← pStr
+  let v ← pNat
+  pure (k, v)
+
+def pPrim : P Prim := do
+  let attrs ← pCounted pKV
+  let idx ← pOptNat
+  let mat ← pOptNat
+  let mode ← pOptNat
+  pure { attrs := attrs, indices := idx, material := mat, mode := mode }
+
+def pGMesh : P GMesh := do
+  let name ← pStr
+  let prims ← pCounted pPrim
+  pure { name := name, prims := prims }
+
+def pGNode : P GNode := do
+  let name ← pStr
+  let mesh ← pOptNat
+  let t ← pOptList pHex64
+  let r ← pOptList pHex64
+  let s ← pOptList pHex64
+  let inst ← pM1List pKV
+  let light ← pOptNat
+  pure { name := name, mesh := mesh, translation := t, rotation := r, scale := s, inst := inst, light := light }
+
+def pTexInfo : P (Option TexInfo) := do
+  match (← pOptNat) with
+  | none => pure none
+  | some i => do
+    let xf ← pM1List pHex64
+    pure (some { index := i, xform := xf })
+
+def pTexInfoScaled : P (Option (TexInfo × Option Nat)) := do
+  match (← pTexInfo) with
+  | none => pure none
+  | some ti => do
+    let sc ← pOptHex
+    pure (some (ti, sc))
+
+def pGMatExt : P GMatExt := do
+  let id ← pStr
+  let payload ← pCounted pHex64
+  let texs ← pCounted (do
+    let k ← pStr
+    match (← pTexInfo) with
+    | some ti => pure (k, ti)
+    | none => failure)
+  pure { id := id, payload := payload, texs := texs }
+
+def pGMat : P GMaterial := do
+  let name ← pStr
+  let am ← pOptStr
+  let cutoff ← pOptHex
+  let bcf ← pCounted pHex64
+  let metallic ← pOptHex
+  let rough ← pOptHex
+  let bct ← pTexInfo
+  let mrt ← pTexInfo
+  let em ← pOptList pHex64
+  let normal ← pTexInfoScaled
+  let occl ← pTexInfoScaled
+  let exts ← pCounted pGMatExt
+  pure { name := name, alphaMode := am, alphaCutoff := cutoff, baseColorFactor := bcf, metallic := metallic,
+         roughness := rough, baseColorTex := bct, metalRoughTex := mrt, emissive := em, normalTex := normal,
+         occlusionTex := occl, exts := exts }
+
+def pDoc : P Doc := do
+  kw "D"; kw "buf"
+  let bufLen ← pOptNat
+  kw "views"
+  let views ← pCounted (do let o ← pNat; let l ← pNat; let t ← pNat; pure ({ off := o, len := l, target := t } : View))
+  kw "accs"
+  let accs ← pCounted pAcc
+  kw "meshes"
+  let meshes ← pCounted pGMesh
+  kw "nodes"
+  let nodes ← pCounted pGNode
+  kw "scene"
+  let scene ← pCounted pNat
+  kw "mats"
+  let mats ← pCounted pGMat
+  kw "texs"
+  let texs ← pCounted (do let s ← pOptNat; let i ← pOptNat; pure ({ sampler := s, source := i } : GTexture))
+  kw "images"
+  let images ← pCounted pStr
+  kw "samplers"
+  let samplers ← pCounted pSampler
+  kw "lights"
+  let lights ← pNat
+  kw "extUsed"
+  let used ← pCounted pStr
+  kw "extReq"
+  let req ← pCounted pStr
+  pure { bufLen := bufLen, views := views, accessors := accs, meshes := meshes, nodes := nodes, scene := scene,
+         materials := mats, textures := texs, images := images, samplers := samplers, lights := lights,
+         extUsed := used, extRequired := req }
+
+def hexByte (a b : Char) : Option UInt8 := do
+  let x ← hexDigit a
+  let y ← hexDigit b
+  pure (UInt8.ofNat (x * 16 + y))
+
+def bytesOfHex (s : String) : Option (List UInt8) :=
+  let rec go : List Char → List UInt8 → Option (List UInt8)
+    | [], acc => some acc.reverse
+    | a :: b :: r, acc => match hexByte a b with
+      | some x => go r (x :: acc)
+      | none => none
+    | _, _ => none
+  go s.toList []
+
+/-- `h<hex>` -/
+def pBytes : P (List UInt8) := do
+  let t ← tok
+  if t.startsWith "h" then
+    match bytesOfHex (t.drop 1).toString with
+    | some b => pure b
+    | none => failure
+  else failure
+
+/-! ### printers (must agree token for token with the harness) -/
+
+def sq (s : String) : String := "q" ++ s
+def optNat (o : Option Nat) : String := match o with
+  | some n => toString n
+  | none => "-1"
+def h64 (n : Nat) : String := natToHex n 16
+def optH (o : Option Nat) : String := match o with
+  | some n => h64 n
+  | none => "-"
+def listH (l : List Nat) : List String := toString l.length :: l.map h64
+def optListH (o : Option (List Nat)) : List String := match o with
+  | some l => listH l
+  | none => ["0"]
+
+def sortKV (l : List (String × Nat)) : List (String × Nat) := l.mergeSort (fun a b => !(b.1 < a.1))
+def sortStr (l : List String) : List String := l.mergeSort (fun a b => !(b < a))
+
+def boundStr (b : Bound) : String := match b with
+  | some n => toString n
+  | none => "s"
+
+def texInfoToks (t : Option TexInfo) : List String := match t with
+  | none => ["-1"]
+  | some ti => toString ti.index :: (match ti.xform with
+    | some x => listH x
+    | none => ["-1"])
+
+def texInfoScaledToks (t : Option (TexInfo × Option Nat)) : List String := match t with
+  | none => ["-1"]
+  | some (ti, sc) => texInfoToks (some ti) ++ [optH sc]
+
+def docToks (d : Doc) : List String :=
+  ["D", "buf", optNat d.bufLen, "views", toString d.views.length]
+  ++ d.views.flatMap (fun v => [toString v.off, toString v.len, toString v.target])
+  ++ ["accs", toString d.accessors.length]
+  ++ d.accessors.flatMap (fun a => [toString a.view, toString a.comp.code, toString a.dim, toString a.count,
+        toString a.min.length] ++ a.min.map boundStr ++ [toString a.max.length] ++ a.max.map boundStr)
+  ++ ["meshes", toString d.meshes.length]
+  ++ d.meshes.flatMap (fun m => [sq m.name, toString m.prims.length] ++ m.prims.flatMap (fun p =>
+        [toString p.attrs.length] ++ (sortKV p.attrs).flatMap (fun kv => [sq kv.1, toString kv.2])
+        ++ [optNat p.indices, optNat p.material, optNat p.mode]))
+  ++ ["nodes", toString d.nodes.length]
+  ++ d.nodes.flatMap (fun n => [sq n.name, optNat n.mesh] ++ optListH n.translation ++ optListH n.rotation
+        ++ optListH n.scale
+        ++ (match n.inst with
+            | none => ["-1"]
+            | some i => toString i.length :: (sortKV i).flatMap (fun kv => [sq kv.1, toString kv.2]))
+        ++ [optNat n.light])
+  ++ ["scene", toString d.scene.length] ++ d.scene.map toString
+  ++ ["mats", toString d.materials.length]
+  ++ d.materials.flatMap (fun m => [sq m.name, (match m.alphaMode with
+            | some a => sq a
+            | none => "-"), optH m.alphaCutoff]
+        ++ listH m.baseColorFactor ++ [optH m.metallic, optH m.roughness]
+        ++ texInfoToks m.baseColorTex ++ texInfoToks m.metalRoughTex ++ optListH m.emissive
+        ++ texInfoScaledToks m.normalTex ++ texInfoScaledToks m.occlusionTex
+        ++ [toString m.exts.length]
+        ++ (m.exts.mergeSort (fun a b => !(b.id < a.id))).flatMap (fun e => [sq e.id] ++ listH e.payload
+              ++ [toString e.texs.length]
+              ++ (e.texs.mergeSort (fun a b => !(b.1 < a.1))).flatMap (fun kt => sq kt.1 :: texInfoToks (some kt.2))))
+  ++ ["texs", toString d.textures.length] ++ d.textures.flatMap (fun t => [optNat t.sampler, optNat t.source])
+  ++ ["images", toString d.images.length] ++ d.images.map sq
+  ++ ["samplers", toString d.samplers.length]
+  ++ d.samplers.flatMap (fun s => [toString s.mag, toString s.min, toString s.wrapS, toString s.wrapT, sq s.name])
+  ++ ["lights", toString d.lights]
+  ++ ["extUsed", toString d.extUsed.length] ++ (sortStr d.extUsed).map sq
+  ++ ["extReq", toString d.extRequired.length] ++ (sortStr d.extRequired).map sq
+
+def hexOfBytes (b : List UInt8) : String :=
+  String.ofList (b.flatMap (fun x => [Nat.digitChar (x.toNat / 16), Nat.digitChar (x.toNat % 16)]))
+
+def fnv1a (b : List UInt8) : UInt32 :=
+  b.foldl (fun h x => (h ^^^ x.toUInt32) * 16777619) 2166136261
+
+/-- same compact form as the harness: hex when small, length + FNV-1a otherwise -/
+def bytesTok (b : List UInt8) : String :=
+  if b.length ≤ 4096 then "h" ++ hexOfBytes b
+  else "L" ++ toString b.length ++ ":" ++ natToHex (fnv1a b).toNat 8
+
+/-! ### requests -/
+
+def run {α} (p : P α) (args : List String) : Option (α × List String) := p.run args
+
+def pFrame : P Frame := do
+  let fileLen ← pNat; let magic ← pNat; let version ← pNat; let total ← pNat
+  let jsonLen ← pNat; let jsonType ← pNat; let hasBin ← pNat; let binLen ← pNat; let binType ← pNat; let trailing ← pNat
+  pure { fileLen := fileLen, magic := magic, version := version, total := total, jsonLen := jsonLen,
+         jsonType := jsonType, hasBin := hasBin == 1, binLen := binLen, binType := binType, trailing := trailing }
+
+def handle (op : String) (args : List String) : Option String :=
+  match op with
+  | "c06.doc" => do
+      let (s, _) ← run (do let _ ← tok; pScene) args
+      match writeScene s with
+      | .ok w => pure (" ".intercalate (docToks w.doc))
+      | .error _ => pure "err"
+  | "c06.bin" => do
+      let (s, _) ← run pScene args
+      match writeScene s with
+      | .ok w => pure (bytesTok w.buf)
+      | .error _ => pure "err"
+  | "c06.glb" => do
+      let ((js, s), _) ← run (do let j ← pBytes; let s ← pScene; pure (j, s)) args
+      match writeScene s with
+      | .ok w => pure (bytesTok (glbFrame js w.buf))
+      | .error _ => pure "err"
+  | "c06.holds.valid" => do
+      let ((d, seen, b), _) ← run (do
+        let d ← pDoc
+        kw "seen"
+        let seen ← pCounted pStr
+        kw "B"
+        let b ← pBytes
+        pure (d, seen, b)) args
+      -- `seen`: every extension id the harness found anywhere in the JSON tree must be declared, too
+      pure (boolStr (valid d b && seen.all (fun e => d.extUsed.contains e)))
+  | "c06.holds.aligned" => do
+      let (d, _) ← run pDoc args
+      pure (boolStr (aligned d))
+  | "c06.holds.alignment_witness" => do
+      let (d, _) ← run pDoc args
+      pure (boolStr (aligned d))
+  | "c06.holds.frame" => do
+      let ((f, jl, bl, p1, p2), _) ← run (do
+        let f ← pFrame
+        let jl ← pNat
+        let bl ← pNat
+        let p1 ← tok
+        let p2 ← tok
+        pure (f, jl, bl, p1, p2)) args
+      pure (boolStr (frameOK f jl bl && p1 == "true" && p2 == "true"))
+  | "c06.holds.decode" => do
+      let ((s, d, b), _) ← run (do
+        let s ← pScene
+        let d ← pDoc
+        kw "B"
+        let b ← pBytes
+        pure (s, d, b)) args
+      pure (boolStr (carriesScene s d b))
+  | "c06.holds.dedup" | "c06.holds.dedup_texxform" | "c06.holds.dedup_texxform_witness" => do
+      let ((s, d), _) ← run (do
+        let s ← pScene
+        let d ← pDoc
+        pure (s, d)) args
+      pure (boolStr (dedupOK s d))
+  | _ => none
 
 end Driver.C06
 
